@@ -1,7 +1,7 @@
 CONSTANTS
-  Pool <- MCPool
-  MaxLen <- MCMaxLen5
-  PartMax <- MCPartMax
+  Pool <- BigPoolE
+  MaxLen <- BigMaxLen
+  PartMax <- BigPartMax
 SPECIFICATION Spec
 INVARIANT TypeOK
 INVARIANT PermInvariant
